@@ -1748,3 +1748,24 @@ pub fn features(ps: &PStream) -> String {
         out.join(",")
     }
 }
+
+fn keys_node(n: &PNode, out: &mut Vec<String>) {
+    match n {
+        PNode::Seq { items, .. } => items.iter().for_each(|e| keys_node(&e.1, out)),
+        PNode::Map { entries, .. } => entries.iter().for_each(|e| {
+            out.push(e.1.clone());
+            keys_node(&e.3, out)
+        }),
+        PNode::Anchored(_, x) => keys_node(x, out),
+        _ => {}
+    }
+}
+
+/// Every mapping key of the stream.
+pub fn all_keys(ps: &PStream) -> Vec<String> {
+    let mut out = Vec::new();
+    for d in &ps.docs {
+        keys_node(&d.root, &mut out);
+    }
+    out
+}
